@@ -502,6 +502,8 @@ def dims_of(a):
         a = a[1]
     if a[0] == 'shaped':
         return tuple(C(d) if isinstance(d, int) else d for d in a[2])
+    if a[0] == 'table':
+        return (a[2], C(len(a[1])))                 # a DataFrame: (rows, columns)
     if a[0] == 'call' and a[1] == 'swapaxes' and len(a[2]) == 3 and all(T.isconst(x) and isinstance(x[1], int) for x in a[2][1:]):
         d = dims_of(a[2][0])
         if d is not None:
@@ -1047,6 +1049,8 @@ def method(fr, recv, recv_node, name, args, kw, extra, n):
     # ---- pandas
     if name == 'to_dict' and (a0 == C('records') or kw.get('orient') == C('records')):
         return ('records', recv)
+    if name == 'rank' and tag == 'table' and not args and not kw:
+        return ('table', tuple((c, T.call('rank', (v,))) for c, v in recv[1]), recv[2])       # DataFrame.rank() ranks every column on its own
     if name == 'rank':
         return T.call('rank', (recv,), kw)
     if name == 'rename' and 'columns' not in kw and kw.get('axis') in (C('columns'), C(1)) and (a0 is not None or 'mapper' in kw):
